@@ -41,7 +41,7 @@ def cases(tier, seed):
                 {
                     "net": n,
                     "cls": n["cls"],
-                    "stop": [rng.choice(["bfs", "dfs", "min", "min_skip", "block", "none", "succ", "succ1", "succ1"]), rng.randint(1, 7)],
+                    "stop": [rng.choice(["bfs", "dfs", "min", "min_skip", "block", "none", "succ", "succ1", "succ1", "pre_min_skip", "pre_min_skip"]), rng.randint(1, 7)],
                     "skip_p": rng.choice([0.0, 0.3, 0.6, 1.0]),
                     "orders": 6,
                     "rs": rng.randrange(1 << 30),
@@ -80,6 +80,17 @@ def build(bb, net, case, rr, W):
         W(lambda: sd.expand_minimal_spaces(size_limit=L, skip_ignored=True))
     elif strat == "block":
         W(lambda: sd.expand_block(size_limit=L))
+    elif strat == "pre_min_skip":
+        # a partial expansion two or more levels deep, then minimal-space expansion that skips everything it ignores;
+        # if it reports completion nothing else is skipped afterwards (it must have left no stub behind)
+        W(lambda: sd.expand_bfs(bfs_level_limit=0))
+        ch = sorted(sd.dag.successors(0))
+        for j in range(min(2, len(ch))):
+            c = ch[(L + j) % len(ch)]
+            W(lambda c=c: sd.expand_bfs(node_id=c, bfs_level_limit=rr.choice([0, 1, 1, 2])), nodes=len(sd))
+        done = W(lambda: sd.expand_minimal_spaces(skip_ignored=True), nodes=len(sd))
+        if done is True:
+            return sd
     elif strat == "spaces":
         for sp in L:
             i = sd.find_node(sp)
